@@ -5,7 +5,9 @@
 (* datastore: QSubmit{who, c, res, grp}, QNext{c, res}, QRestart, Crash.   *)
 (* The monitor keeps the FIFO of acknowledged-but-not-handed-out batches.  *)
 (* A submission that crashed before it was acknowledged is a "maybe"       *)
-(* entry: it may come out or not.  Submissions of one concurrent phase     *)
+(* entry: it may come out or not - unless the queue was full when it was    *)
+(* made: a submission to a full queue writes nothing, so it can leave      *)
+(* nothing behind.  Submissions of one concurrent phase     *)
 (* (grp > 0) are ordered per submitter only.                               *)
 (***************************************************************************)
 EXTENDS TraceLib
@@ -30,8 +32,8 @@ TReset == /\ Is("Reset") /\ Adv /\ run' = e.run /\ bound' = e.bound /\ pend' = <
 
 TSubmit ==
     /\ Is("QSubmit") /\ Adv
-    /\ pend' = CASE e.res = "ok" /\ e.c # "" -> Append(pend, [c |-> e.c, sure |-> TRUE, grp |-> e.grp, who |-> e.who])
-                 [] e.res = "crash" /\ e.c # "" -> Append(pend, [c |-> e.c, sure |-> FALSE, grp |-> e.grp, who |-> e.who])
+    /\ pend' = CASE e.res = "ok" /\ e.c # "" -> Append(pend, [c |-> e.c, sure |-> TRUE, grp |-> e.grp, who |-> e.who, full |-> FALSE])
+                 [] e.res = "crash" /\ e.c # "" -> Append(pend, [c |-> e.c, sure |-> FALSE, grp |-> e.grp, who |-> e.who, full |-> (bound > 0 /\ e.grp = 0 /\ NSure >= bound)])
                  [] OTHER -> pend
     /\ viol' = viol \o Failed(<<
           <<"C10.BoundRespected", (e.res = "ok" /\ e.c # "" /\ bound > 0 /\ e.grp = 0) => NSure < bound, "a batch was accepted although the queue already held the configured maximum">>,
@@ -47,6 +49,8 @@ TNext ==
        /\ viol' = viol \o Failed(<<
              <<"C10.FifoExactlyOnce", (e.res = "ok" /\ e.c # "") => cands # {},
                  "a batch was handed out that is not the next acknowledged one (out of order, handed out twice, or never accepted)">>,
+             <<"C10.RejectedLeavesNoTrace", (e.res = "ok" /\ e.c # "" /\ cands # {}) => ~pend[MinOfSet(cands)].full,
+                 "a submission that met a full queue (and died before it was answered) left a batch behind that was handed out">>,
              <<"C10.NoLoss", (e.res = "ok" /\ e.c = "") => NSure = 0, "the queue reported nothing to hand out although an acknowledged batch was never handed out">>,
              <<"C10.NextWorks", e.res # "err", "GetNextBatch failed">>
              >>, l, run)
